@@ -73,19 +73,16 @@ def reopen_cfgs():
     # behavioural (numbering-independent) follow-up write after the re-open: no verdict within 150 s on the loaded machine -> thorough
     c.append(dict(H4, NK=1, FSBS=16, FOLLOWUP=None, _unwindset=uw(1, FU), _tier="thorough"))
     c.append(dict(H4, NK=1, FSBS=16, FOLLOWUP_SAVED=None, _unwindset=uw(1, FU), _tier="thorough"))
-    c.append(dict(H4, NK=1, FSBS=16, OFFQ=1, FOLLOWUP_SAVED=None, _unwindset=uw(1, FU), _tier="thorough"))
     for dmg in (1, 2, 3, 4, 5, 6):
         c.append(dict(H4, NK=1, FSBS=16, DAMAGE=dmg, _unwindset=uw(1)))
     c.append(dict(H4, NK=1, FSBS=16, DAMAGE=7, _unwindset=uw(1), _tier="thorough"))
-    # (a) fs offset >= one undo block: the map is rebuilt fs-relative but tested absolute -> this query FAILS (solver + native
-    #     replay), label "block map rebuilt with the ids undo_write_tdb tests ...".  LATENT, not a finding: its pre-state (a
-    #     successful re-open with a non-zero fs offset) is not reachable through undo_open(): check_filesystem() runs before the
-    #     tool sets the offset, reads the wrong superblock and the tools refuse with "Wrong undo file for this filesystem"
-    #     (checked natively with mke2fs -E offset=524288 -z u; tune2fs -z u img?offset=524288).  Kept in the thorough tier.
-    c.append(dict(H4, NK=1, FSBS=16, OFFQ=2, _unwindset=uw(1), _tier="thorough"))
-    c.append(dict(H4, NK=1, FSBS=16, OFFQ=2, FOLLOWUP_SAVED=None, _unwindset=uw(1, FU), _tier="thorough"))
-    c.append(dict(H4, NK=1, FSBS=16, OFFQ=2, FOLLOWUP=None, _unwindset=uw(1, FU), _tier="thorough"))
-    # (b) GENUINE DEFECT (fails on the current tree): a file whose last key block is exactly full (num_keys % KEYS_PER_BLOCK == 0)
+    # NOT registered (would alarm on a pre-state no run reaches): re-open with a non-zero fs offset (OFFQ=2, and OFFQ=1 with a
+    # follow-up write).  With an offset the rebuilt block map is fs-relative while undo_write_tdb tests absolute ids, so a
+    # follow-up write would save a recorded block again / skip an unrecorded one -- but undo_open() runs check_filesystem()
+    # BEFORE the tool sets the offset, reads the wrong superblock and refuses ("Wrong undo file for this filesystem"; checked
+    # natively with mke2fs -E offset=524288 -z u; tune2fs -z u img?offset=524288), so no tool run re-opens such a file.
+    # reopen.c still encodes the case (-DOFFQ=2); see DESIGN.md "Observed, not raised".
+    # (b) regression query for a repaired defect (known_findings.txt): a file whose last key block is exactly full (num_keys % KEYS_PER_BLOCK == 0)
     c.append(dict(H4, NK=2, FSBS=16, _unwindset=uw(2)))
     c.append(dict(H4, NK=2, FSBS=16, FOLLOWUP=None, _unwindset=uw(2, FU), _tier="thorough"))
     return c
